@@ -63,8 +63,12 @@ def make_ddf(gdf, parts, tag="in"):
     import dask.dataframe as dd
     if parts["mode"] == "even":
         return dd.from_pandas(gdf, npartitions=parts["k"], sort=False)
+    import uuid
     frames = [gdf.iloc[s] for s in parts["splits"]]
-    ds = [dask.delayed(f, name=f"{tag}-part-{i}") for i, f in enumerate(frames)]
+    # names must be unique per object: dask-expr deduplicates expressions by name.
+    # uuid4 is the run's seeded generator, so the same case gives the same names again
+    run = uuid.uuid4().hex[:12]
+    ds = [dask.delayed(f, name=f"{tag}-{run}-part-{i}") for i, f in enumerate(frames)]
     return dd.from_delayed(ds, meta=gdf.iloc[:0], verify_meta=False)
 
 
